@@ -479,8 +479,30 @@ def main(rep, tier, only):
             if kind == "erase1" and len(a) != 1:
                 why = "erases a range; allowed: exactly %s (every other occurrence must stay for the leftover check)" % text
             if kind == "erase2":
-                ts = [T.show(T.norm(u, x)) for x in a]
-                if len(a) != 2 or "next(" not in ts[1] or ", 2)" not in ts[1].replace("2L", "2"):
+                ts = [T.show(T.snorm(u, fn, x)) for x in a]
+
+                def offset(t):
+                    """(base, k): the iterator term is base advanced by k (std::next / std::prev / + / -, named intermediates substituted)"""
+                    k = 0
+                    while isinstance(t, tuple) and t:
+                        if t[0] == "new" and len(t[2]) == 1:
+                            t = t[2][0]        # iterator conversion
+                        elif t[0] == "c" and str(t[1]) in ("std::next", "std::prev") and len(t[3]) in (1, 2):
+                            step = 1
+                            if len(t[3]) == 2:
+                                if not (t[3][1][0] == "k" and str(t[3][1][1]).rstrip("LlUu").lstrip("-").isdigit()):
+                                    return None
+                                step = int(str(t[3][1][1]).rstrip("LlUu"))
+                            k += step if str(t[1]) == "std::next" else -step
+                            t = t[3][0]
+                        elif t[0] == "b" and t[1] in ("+", "-") and t[3][0] == "k" and str(t[3][1]).rstrip("LlUu").isdigit():
+                            k += int(str(t[3][1]).rstrip("LlUu")) * (1 if t[1] == "+" else -1)
+                            t = t[2]
+                        else:
+                            break
+                    return (T.show(t), k)
+                o = [offset(T.snorm(u, fn, x)) for x in a]
+                if len(a) != 2 or None in o or o[0][1] != 0 or o[1] != (o[0][0], 2):
                     why = "erases %s; allowed: %s" % (ts, text)
         (rep.fail if why else rep.ok)("ARGS-MUT", key, u.loc(muts[0][1]["loc"]), name, **({"why": why} if why else {"how": text}))
     # ---- FLAG-TOK: token classification of is_flag (decision table over the shape of the token)
